@@ -210,7 +210,7 @@ func c16Call2(ctx context.Context, st *setec.Store, ep int, name string) (tok in
 		}
 		return c16Tok(h.Get()), false, func() int { return c16Tok(h.Get()) }, nil
 	case 2:
-		u, err := setec.NewUpdater(ctx, st, name, func(b []byte) (int, error) { return c16Tok(b), nil })
+		u, err := newUpdaterReleased(ctx, st, name, func(b []byte) (int, error) { return c16Tok(b), nil }) // (c15.go)
 		if err != nil {
 			return -1, false, nil, err
 		}
